@@ -41,11 +41,10 @@ pub fn add_state(lhs: [u32; SETSUM_COLUMNS], rhs: [u32; SETSUM_COLUMNS]) -> [u32
     for i in 0..SETSUM_COLUMNS {
         let lc = lhs[i] as u64;
         let rc = rhs[i] as u64;
-        let mut sum = lc + rc;
         let p = SETSUM_PRIMES[i] as u64;
-        if sum >= p {
-            sum -= p;
-        }
+        // NOTE: from_digest can hand us columns >= p, so a single conditional subtraction is
+        // not enough to reduce the sum.
+        let sum = (lc + rc) % p;
         ret[i] = sum as u32;
     }
     ret
@@ -57,7 +56,7 @@ pub fn add_state(lhs: [u32; SETSUM_COLUMNS], rhs: [u32; SETSUM_COLUMNS]) -> [u32
 pub fn invert_state(state: [u32; SETSUM_COLUMNS]) -> [u32; SETSUM_COLUMNS] {
     let mut state = state;
     for i in 0..SETSUM_COLUMNS {
-        state[i] = SETSUM_PRIMES[i] - state[i]
+        state[i] = SETSUM_PRIMES[i] - state[i] % SETSUM_PRIMES[i]
     }
     state
 }
